@@ -37,8 +37,8 @@ GROUPS = {
    [('copy_slice_is_model', 'copy_slice_eq'), ('copy_sample_is_model', 'copy_sample_eq'),
     ('get_subset_slice_axis_is_model', 'get_subset_key_slice_eq'), ('get_subset_spatial_axis_copies', 'get_subset_key_spatial_eq'),
     ('get_subset_sample_axis_is_model', 'get_subset_key_sample_eq')]),
- 'header': ('dcmstack.py: the slice-timing block of DicomStack.to_nifti',
-   [('header_slice_times_is_model', 'header_slice_times_eq')]),
+ 'header': ('dcmstack.py: repetition time, dim_info and slice timing in DicomStack.to_nifti',
+   [('header_slice_times_is_model', 'header_slice_times_eq'), ('header_dim_info_is_model', 'header_dim_info_eq')]),
  'stackadd': ('dcmstack.py: DicomStack.add_dcm, _chk_congruent, _chk_close, _chk_equal',
    [('chk_congruent_is_model', 'chk_congruent_eq'), ('add_dcm_is_model', 'add_dcm_eq')]),
  'data': ('dcmstack.py: DicomStack.get_data',
